@@ -1,4 +1,4 @@
-(* C04, packet half (provisional file of the C14 contributor; the integrator merges the receive-path theorems). *)
+(* C04: packet-view half, then the receive-path half (Net/Recv*.v). *)
 From TV Require Import Base.Result Packet.ByteOps Packet.IcmpExt Packet.Views Proofs.IcmpExtProofs Proofs.ViewsProofs.
 
 (* For every packet view and every non-mutating accessor: on EVERY buffer of at least the view's minimum size the
@@ -22,3 +22,30 @@ Example c04_ipv4_ihl15 :
   let buf := 79 :: repeat 0 19 in
   (view_min VIpv4 <= length buf)%nat /\ ipv4_payload buf = Ok [] /\ pinned_ipv4_payload buf = Fault OutOfBounds.
 Proof. vm_compute. repeat split; reflexivity. Qed.
+
+(* ---------------------------------------------------------------- receive half (net/ipv4.rs, net/ipv6.rs, net/channel.rs, net/extension.rs) *)
+From TV Require Import Base.Result Base.Bytes Core.Types Core.TracerState Core.Strategy.
+From TV Require Import Net.RecvCommon Net.Recv4 Net.Recv6 Net.Recv Proofs.RecvProofs.
+
+(* whatever arrives on the IPv4 raw socket, in every configuration: a response, nothing, or an error value *)
+Theorem c04_recv4_total : forall c now bytes f, recv4 c now bytes <> Fault f.
+Proof. exact recv4_total. Qed.
+(* the same for the ICMPv6 socket (the sender address recv_from reports is absent or an IPv6 address) *)
+Theorem c04_recv6_total : forall c now from b, bytes b -> from_v6 from -> forall f, recv6 c now from b <> Fault f.
+Proof. exact recv6_total. Qed.
+(* Network::recv_probe of the channel: every protocol, every outcome of the TCP probe sockets, every socket result *)
+Theorem c04_recv_probe_total : forall c now found rd, readable_ok rd -> forall f, recv_probe c now found rd <> Fault f.
+Proof. exact recv_probe_total. Qed.
+(* the strategy step that consumes the response does not fault either *)
+Theorem c04_strategy_resp_total : forall sc r f, strategy_resp sc r <> Fault f.
+Proof. exact strategy_resp_total. Qed.
+(* no looping: the iterators over extension objects and MPLS label stack entries never exhaust their fuel *)
+Theorem c04_extension_iterators_terminate : forall v st off bos, 0 <= off ->
+  objects (S (length v)) v off <> Fault OutOfFuel /\ mpls_members (S (length st)) st off bos <> Fault OutOfFuel.
+Proof. intros v st off bos H. split; [apply objects_fuel_suffices | apply mpls_members_fuel_suffices]; exact H. Qed.
+
+Example c04_example_nested_ihl15 :
+  recv4 {| rc_src := [10;0;0;1]; rc_dest := [10;0;0;2]; rc_proto := Icmp; rc_privileged := true; rc_ext := false; rc_pattern := 0 |} 0
+        ([69;0;0;56;0;0;64;0;250;1;0;0;10;0;0;9;10;0;0;1] ++ [11;0;0;0;0;0;0;0] ++
+         [79;0;0;84;0;0;64;0;1;1;0;0;10;0;0;1;10;0;0;2] ++ [8;0;0;0;18;52;130;155]) = Err EPacket.
+Proof. vm_compute. reflexivity. Qed.
